@@ -45,7 +45,7 @@ const KS: [usize; 30] = [
 
 /// The fixed two-level ontology in the standard flavour: root HP:0000001, 20 inner nodes (HP:0000118 and
 /// 19 modifier roots 502..=520), 420 leaves (21 below each inner node);
-/// 30 records per kind (ids 1..=30 in every kind, different links per kind),
+/// 32 records per kind (ids 1..=30, 0 and u32::MAX in every kind, different links per kind),
 /// record j annotated to a pseudo-random KS[j]-subset of the leaves.
 pub fn fixed_facts() -> Facts {
     let mut f = Facts::default();
@@ -74,6 +74,18 @@ pub fn fixed_facts() -> Facts {
             }
             leaves.truncate(*kk);
             f.recs[k].push(RecFact { id: j as u32 + 1, name: format!("{}{}", KIND_NAMES[k], j + 1), terms: leaves });
+        }
+        // two more records per kind under the smallest and the largest id a record can have
+        for (id, kk, j) in [(0u32, 9usize, 30u64), (u32::MAX, 77, 31)] {
+            let mut leaves: Vec<u32> = leaf_ids();
+            let mut x: u64 = 0x2545F4914F6CDD1D ^ ((k as u64) << 32) ^ (j * 7919);
+            for i in (1..leaves.len()).rev() {
+                x = x.wrapping_mul(6364136223846793005).wrapping_add(1442695040888963407);
+                let r = ((x >> 33) as usize) % (i + 1);
+                leaves.swap(i, r);
+            }
+            leaves.truncate(kk);
+            f.recs[k].push(RecFact { id, name: format!("{}-id-{id}", KIND_NAMES[k]), terms: leaves });
         }
     }
     f.ann_calls = f.canonical_ann_calls();
@@ -453,7 +465,7 @@ impl Property for C06 {
         "C06"
     }
     fn rule(&self) -> String {
-        "Fixed two-level ontology loaded from own v3 bytes (root, 20 inner nodes, 420 leaves, every ninth leaf and one inner node flagged obsolete; 30 records per kind with the same ids in every kind, annotated to pseudo-random K-subsets of the leaves, K from 1 to 420 incl. 168..172). Generated per case: a background (subset of the terms, leaves only or with inner nodes/root so that K also arises by inheritance; sizes biased to 1..30, 160..182 and up to 441) and a sample drawn from it; k-sweep cases fix N, K, n and build a sample for every feasible k. A small share of the cases (about 2 %) uses a second fixture of real-HPO size: a flat ontology with 20 000 leaves and 10 records with K from 1 to 19 000; background = all terms / all leaves / every s-th leaf, sample = k linked + n-k unlinked terms (n up to 2500), exact tail by a multiplicative big-integer recurrence, tolerance 1e-8; deterministic sweeps in their own processes use freshly built flat ontologies of 100 000 - 250 000 leaves and one of 10^6 leaves with a sample of 5 000 and a record on 95 % of the population, so that the products n*K and k*N exceed 2^32 (tolerance 1e-7). All three enrichment functions. Oracle: result ids = records linked to >=1 sample term, each once; count = k; p-value vs P[X>=k] computed with exact big integers (Pascal triangle, one rounding), relative 1e-9; fold = (k/n)/(K/N) relative 1e-12; 0<=p<=1 and p non-increasing in k along a sweep, both exact. evaluations = (record, N, K, n, k) tuples. Non-trivial = 0<k<min(K,n) and K<N; distinct = distinct (N,K,n,k) tuples (plus distinct sweeps).".into()
+        "Fixed two-level ontology loaded from own v3 bytes (root, 20 inner nodes, 420 leaves, every ninth leaf and one inner node flagged obsolete; 32 records per kind with the same ids in every kind - 1..=30, 0 and u32::MAX -, annotated to pseudo-random K-subsets of the leaves, K from 1 to 420 incl. 168..172). Generated per case: a background (subset of the terms, leaves only or with inner nodes/root so that K also arises by inheritance; sizes biased to 1..30, 160..182 and up to 441) and a sample drawn from it; k-sweep cases fix N, K, n and build a sample for every feasible k. A small share of the cases (about 2 %) uses a second fixture of real-HPO size: a flat ontology with 20 000 leaves and 10 records with K from 1 to 19 000; background = all terms / all leaves / every s-th leaf, sample = k linked + n-k unlinked terms (n up to 2500), exact tail by a multiplicative big-integer recurrence, tolerance 1e-8; deterministic sweeps in their own processes use freshly built flat ontologies of 100 000 - 250 000 leaves and one of 10^6 leaves with a sample of 5 000 and a record on 95 % of the population, so that the products n*K and k*N exceed 2^32 (tolerance 1e-7). All three enrichment functions. Oracle: result ids = records linked to >=1 sample term, each once; count = k; p-value vs P[X>=k] computed with exact big integers (Pascal triangle, one rounding), relative 1e-9; fold = (k/n)/(K/N) relative 1e-12; 0<=p<=1 and p non-increasing in k along a sweep, both exact. evaluations = (record, N, K, n, k) tuples. Non-trivial = 0<k<min(K,n) and K<N; distinct = distinct (N,K,n,k) tuples (plus distinct sweeps).".into()
     }
     fn assumptions(&self) -> Vec<String> {
         vec![
